@@ -476,6 +476,17 @@ def monitor_isolation(ctx, n_hist=8, steps=40):
             if so != outs[j]:
                 k = next(i for i in range(len(so)) if so[i] != outs[j][i])
                 return {"kind": "isolation", "config": c, "history": ser_history(hs[j][:k + 1]), "what": f"step {k}: with other instances alive the decoder returned {outs[j][k][:100]}, alone it returns {so[k][:100]}"}, n
+            # inputs rejected with an error never change what is returned later: the history without them gives the same results
+            keep = [i for i, o in enumerate(so) if o != "raised"]
+            if len(keep) < len(so):
+                filt = Real(c)
+                fo = [filt.feed(hs[j][i])[0] for i in keep]
+                filt.close()
+                ref = [so[i] for i in keep]
+                if fo != ref:
+                    k = next(i for i in range(len(fo)) if fo[i] != ref[i])
+                    return {"kind": "rejected-input", "config": c, "history": ser_history(hs[j][:keep[k] + 1]),
+                            "what": f"step {keep[k]}: the decoder returned {ref[k][:90]}; without the {keep[k] + 1 - (k + 1)} earlier inputs it had rejected with an error it returns {fo[k][:90]}"}, n
             # probes: a single-frame message and a complete fast message with a fresh counter, after the history vs on a fresh instance
             t = Traffic(rnd, db)
             probe1 = t.single(9) + (False, False)
